@@ -182,7 +182,8 @@ def wiring(ctx, p, K):
     # sub pixel areas
     m = c.lookup("sub_pixel_areas")
     S = K.summarize(m)
-    sts = [s for s in S.stores if s.arr == "sub_pixel_areas"]
+    outs_ = S.returned_array_names()
+    sts = S.stores_to(outs_[0]) if len(outs_) == 1 else []   # the returned array, whatever it is called
     ok = len(sts) == 1 and len(sts[0].loops) == 2
     det = ""
     if ok:
